@@ -1210,3 +1210,264 @@ Proof.
   cbv zeta. split; [|vm_compute; auto].
   repeat constructor.
 Qed.
+
+(* ------------------------------------------------------------------ bit_min / bit_max / bit_count *)
+Lemma bit_min_from_spec : forall ws i,
+  (Forall (fun w => w = 0) ws -> bit_min_from ws i = 0) /\
+  (~ Forall (fun w => w = 0) ws ->
+   exists k c, (forall k', (k' < k)%nat -> nth k' ws 0 = 0) /\ bit_min_from ws i = (i + N.of_nat k) * 64 + c /\
+               N.testbit (nth k ws 0) c = true /\ forall j, j < c -> N.testbit (nth k ws 0) j = false).
+Proof.
+  induction ws as [|w ws IH]; intros i.
+  - split; [reflexivity|]. intros H. exfalso. apply H. constructor.
+  - destruct w as [|p].
+    + destruct (IH (i + 1)) as [IH1 IH2]. split.
+      * intros H. inversion H; subst. simpl. apply IH1. assumption.
+      * intros H. destruct IH2 as [k [c [Hz [Hm [Ht Hl]]]]].
+        { intros Hall. apply H. constructor; auto. }
+        exists (S k), c. split; [|split; [|split]].
+        -- intros [|k'] Hk; simpl; auto. apply Hz. lia.
+        -- simpl bit_min_from. rewrite Hm. f_equal. lia.
+        -- exact Ht.
+        -- exact Hl.
+    + split.
+      * intros H. inversion H; subst. discriminate.
+      * intros _. destruct (low_scan_spec p 0) as [c [E [Ht Hl]]]. exists O, c.
+        split; [intros k' Hk; lia|]. split; [|split; auto].
+        simpl bit_min_from. rewrite E. lia.
+Qed.
+
+Lemma all_zero_dec (ws : list N) : {Forall (fun w => w = 0) ws} + {~ Forall (fun w => w = 0) ws}.
+Proof. apply Forall_dec. intros w. apply N.eq_dec. Qed.
+
+(* bitmap_bit_min: 0 for the empty set, else the least member *)
+Theorem bit_min_spec bm : wfb bm ->
+  ((forall n, wbit bm n = false) -> bit_min bm = 0) /\
+  (forall n, wbit bm n = true -> wbit bm (bit_min bm) = true /\ bit_min bm <= n).
+Proof.
+  intros Hwf. unfold bit_min. destruct (bit_min_from_spec bm 0) as [S1 S2].
+  destruct (all_zero_dec bm) as [Hz|Hnz].
+  - assert (Hall : forall n, wbit bm n = false).
+    { intros n. unfold wbit. rewrite Forall_forall in Hz.
+      destruct (Nat.ltb_spec (wordix n) (length bm)) as [Hi|Hi].
+      - rewrite (Hz _ (nth_In bm 0 Hi)). apply N.bits_0.
+      - rewrite nth_overflow by auto. apply N.bits_0. }
+    split; [intros _; apply S1; exact Hz|]. intros n Hn. rewrite Hall in Hn. discriminate.
+  - destruct (S2 Hnz) as [k [c [Hzk [Hm [Ht Hl]]]]].
+    assert (Hc : c < 64).
+    { destruct (N.lt_ge_cases c 64) as [|Hge]; auto.
+      rewrite (lt_pow2_bits _ 64 (wfb_nth bm k Hwf)) in Ht by auto. discriminate. }
+    rewrite Hm. replace ((0 + N.of_nat k) * 64 + c) with (N.of_nat k * 64 + c) by lia.
+    destruct (nm_decomp k c Hc) as [E1 E2].
+    split.
+    + intros Hall. specialize (Hall (N.of_nat k * 64 + c)). unfold wbit in Hall. rewrite E1, E2 in Hall. congruence.
+    + intros n Hn. split; [unfold wbit; rewrite E1, E2; exact Ht|].
+      unfold wbit in Hn. pose proof (N.div_mod n 64 ltac:(lia)) as Hdm. pose proof (mod64_lt n) as Hml.
+      destruct (Nat.lt_trichotomy (wordix n) k) as [Hlt|[Heq|Hgt]].
+      * rewrite Hzk in Hn by auto. rewrite N.bits_0 in Hn. discriminate.
+      * rewrite Heq in Hn. unfold wordix in Heq.
+        destruct (N.lt_ge_cases (n mod 64) c) as [Hlo|Hhi]; [rewrite Hl in Hn by auto; discriminate|].
+        assert (n / 64 = N.of_nat k) by lia. remember (n / 64) as q. remember (n mod 64) as r. lia.
+      * unfold wordix in Hgt. assert (N.of_nat k < n / 64) by lia.
+        remember (n / 64) as q. remember (n mod 64) as r. lia.
+Qed.
+
+Lemma hi_scan_spec el : forall c,
+  match hi_scan c el with
+  | Some b => (b <= N.of_nat c) /\ N.testbit el b = true /\ forall j, b < j <= N.of_nat c -> N.testbit el j = false
+  | None => forall j, j <= N.of_nat c -> N.testbit el j = false
+  end.
+Proof.
+  induction c as [|c IH]; cbn [hi_scan].
+  - destruct (N.testbit el (N.of_nat 0)) eqn:E.
+    + split; [lia|]. split; [exact E|]. intros j Hj. lia.
+    + intros j Hj. replace j with (N.of_nat 0) by lia. exact E.
+  - destruct (N.testbit el (N.of_nat (S c))) eqn:E.
+    + split; [lia|]. split; [exact E|]. intros j Hj. lia.
+    + destruct (hi_scan c el) as [b|].
+      * destruct IH as [I1 [I2 I3]]. split; [lia|]. split; [exact I2|]. intros j Hj.
+        destruct (N.eq_dec j (N.of_nat (S c))) as [->|]; [exact E|]. apply I3. lia.
+      * intros j Hj. destruct (N.eq_dec j (N.of_nat (S c))) as [->|]; [exact E|]. apply IH. lia.
+Qed.
+
+(* scanning (index, word) pairs from the last word down: the result is the greatest member *)
+Lemma bit_max_from_spec : forall rws,
+  (forall i el, In (i, el) rws -> el < 2 ^ 64) ->
+  let r := bit_max_from rws in
+  ((forall i el, In (i, el) rws -> el = 0) -> r = 0) /\
+  (forall i el j, In (i, el) rws -> N.testbit el j = true ->
+     StronglySorted (fun a b => (fst b < fst a)%nat) rws ->
+     exists i' el', In (i', el') rws /\ r = N.of_nat i' * 64 + r mod 64 /\ r mod 64 < 64 /\
+                    N.testbit el' (r mod 64) = true /\ N.of_nat i * 64 + j <= r).
+Proof.
+  induction rws as [|[i0 el0] rws IH]; intros Hlt r.
+  - split; [reflexivity|]. intros i el j [].
+  - assert (Hlt' : forall i el, In (i, el) rws -> el < 2 ^ 64) by (intros i el H; apply (Hlt i el); right; exact H).
+    specialize (IH Hlt'). cbv zeta in IH. destruct IH as [IH1 IH2].
+    assert (Hel0 : el0 < 2 ^ 64) by (apply (Hlt i0); left; reflexivity).
+    subst r. cbn [bit_max_from].
+    destruct (N.eqb_spec el0 0) as [Ez|Enz].
+    + split.
+      * intros Hall. apply IH1. intros i el H. apply (Hall i el). right. exact H.
+      * intros i el j [Hin|Hin] Ht Hs.
+        -- inversion Hin; subst. rewrite N.bits_0 in Ht. discriminate.
+        -- inversion Hs; subst. destruct (IH2 i el j Hin Ht H1) as [i' [el' [Hin' Hr]]].
+           exists i', el'. split; [right; exact Hin'|exact Hr].
+    + pose proof (hi_scan_spec el0 63) as Hh. destruct (hi_scan 63 el0) as [b|].
+      * destruct Hh as [Hb [Htb Hhi]]. change (N.of_nat 63) with 63 in *.
+        assert (Hmod : (N.of_nat i0 * 64 + b) mod 64 = b).
+        { destruct (nm_decomp i0 b ltac:(lia)) as [_ E]. exact E. }
+        split.
+        -- intros Hall. exfalso. apply Enz. apply (Hall i0). left. reflexivity.
+        -- intros i el j [Hin|Hin] Ht Hs.
+           ++ inversion Hin; subst i el. exists i0, el0. split; [left; reflexivity|].
+              rewrite Hmod. split; [reflexivity|]. split; [lia|]. split; [exact Htb|].
+              assert (j <= b).
+              { destruct (N.le_gt_cases j b); auto.
+                destruct (N.le_gt_cases j 63) as [Hj|Hj]; [rewrite Hhi in Ht by lia; discriminate|].
+                rewrite (lt_pow2_bits el0 64 Hel0) in Ht by lia. discriminate. }
+              lia.
+           ++ exists i0, el0. split; [left; reflexivity|]. rewrite Hmod.
+              split; [reflexivity|]. split; [lia|]. split; [exact Htb|].
+              inversion Hs; subst. rewrite Forall_forall in H2. specialize (H2 _ Hin). simpl in H2.
+              assert (j < 64).
+              { destruct (N.lt_ge_cases j 64); auto.
+                rewrite (lt_pow2_bits el 64 (Hlt' i el Hin)) in Ht by auto. discriminate. }
+              nia.
+      * exfalso. apply Enz. apply N.bits_inj. intros j. rewrite N.bits_0.
+        destruct (N.le_gt_cases j 63) as [Hj|Hj]; [apply Hh; exact Hj|].
+        apply (lt_pow2_bits el0 64 Hel0). lia.
+Qed.
+
+Lemma combine_seq_in (l : list N) : forall s i el,
+  In (i, el) (combine (seq s (length l)) l) <-> (s <= i < s + length l)%nat /\ nth (i - s) l 0 = el.
+Proof.
+  induction l as [|x l IH]; intros s i el; simpl.
+  - split; [tauto|]. intros [H _]. lia.
+  - rewrite IH. split.
+    + intros [E|[H1 H2]].
+      * inversion E; subst. split; [lia|]. rewrite Nat.sub_diag. reflexivity.
+      * split; [lia|]. replace (i - s)%nat with (S (i - S s)) by lia. exact H2.
+    + intros [H1 H2]. destruct (Nat.eq_dec i s) as [->|Hne].
+      * left. rewrite Nat.sub_diag in H2. congruence.
+      * right. split; [lia|]. replace (i - s)%nat with (S (i - S s)) in H2 by lia. exact H2.
+Qed.
+
+Lemma sorted_snoc {X} (R : X -> X -> Prop) l a :
+  StronglySorted R l -> Forall (fun b => R b a) l -> StronglySorted R (l ++ [a]).
+Proof.
+  induction l as [|x l IH]; intros Hs Hf; simpl.
+  - constructor; constructor.
+  - inversion Hs; subst. inversion Hf; subst. constructor; [apply IH; auto|].
+    apply Forall_app. split; auto.
+Qed.
+
+Lemma sorted_rev_combine (l : list N) : forall s,
+  StronglySorted (fun a b => (fst b < fst a)%nat) (rev (combine (seq s (length l)) l)).
+Proof.
+  induction l as [|x l IH]; intros s; simpl; [constructor|].
+  apply sorted_snoc; [apply IH|]. apply Forall_forall. intros [i el] Hin.
+  apply in_rev in Hin. apply combine_seq_in in Hin. simpl. lia.
+Qed.
+
+(* bitmap_bit_max: 0 for the empty set, else the greatest member *)
+Theorem bit_max_spec bm : wfb bm ->
+  ((forall n, wbit bm n = false) -> bit_max bm = 0) /\
+  (forall n, wbit bm n = true -> wbit bm (bit_max bm) = true /\ n <= bit_max bm).
+Proof.
+  intros Hwf. unfold bit_max. set (rws := rev (combine (seq 0 (length bm)) bm)).
+  assert (Hin : forall i el, In (i, el) rws <-> (i < length bm)%nat /\ nth i bm 0 = el).
+  { intros i el. unfold rws. rewrite <- in_rev, combine_seq_in. rewrite Nat.sub_0_r. split; intros [H1 H2]; split; auto; lia. }
+  assert (Hlt : forall i el, In (i, el) rws -> el < 2 ^ 64).
+  { intros i el H. apply Hin in H. destruct H as [_ <-]. apply wfb_nth. exact Hwf. }
+  destruct (bit_max_from_spec rws Hlt) as [S1 S2]. split.
+  - intros Hall. apply S1. intros i el H. apply Hin in H. destruct H as [Hi <-].
+    apply word_ext; [apply wfb_nth; exact Hwf|reflexivity|]. intros j Hj. rewrite N.bits_0.
+    specialize (Hall (N.of_nat i * 64 + j)). unfold wbit in Hall.
+    destruct (nm_decomp i j Hj) as [E1 E2]. rewrite E1, E2 in Hall. exact Hall.
+  - intros n Hn. pose proof (wbit_lt bm n Hn) as Hnl. apply wordix_lt in Hnl.
+    unfold wbit in Hn.
+    destruct (S2 (wordix n) (nth (wordix n) bm 0) (n mod 64)) as [i' [el' [Hin' [Hr [Hm [Ht Hle]]]]]].
+    + apply Hin. auto.
+    + exact Hn.
+    + apply sorted_rev_combine.
+    + apply Hin in Hin'. destruct Hin' as [Hi' <-]. split.
+      * unfold wbit. rewrite Hr.
+        destruct (nm_decomp i' (bit_max_from rws mod 64) Hm) as [E1 E2]. rewrite E1, E2. exact Ht.
+      * pose proof (N.div_mod n 64 ltac:(lia)) as Hdm. unfold wordix in Hle.
+        rewrite N2Nat.id in Hle. remember (n / 64) as q. remember (n mod 64) as r. lia.
+Qed.
+
+(* bit_count = number of members: [cntl f n] counts the j < n with f j = true *)
+Fixpoint cntl (f : nat -> bool) (n : nat) : N :=
+  match n with O => 0 | S k => (if f O then 1 else 0) + cntl (fun j => f (S j)) k end.
+
+Lemma cntl_ext f g n : (forall j, (j < n)%nat -> f j = g j) -> cntl f n = cntl g n.
+Proof.
+  revert f g; induction n as [|n IH]; intros f g H; simpl; auto.
+  rewrite (H O) by lia. f_equal. apply IH. intros j Hj. apply H. lia.
+Qed.
+
+Lemma cntl_false f n : (forall j, (j < n)%nat -> f j = false) -> cntl f n = 0.
+Proof.
+  revert f; induction n as [|n IH]; intros f H; simpl; auto.
+  rewrite (H O) by lia. rewrite IH; auto. intros j Hj. apply H. lia.
+Qed.
+
+Lemma cntl_add f a b : cntl f (a + b) = cntl f a + cntl (fun j => f (a + j)%nat) b.
+Proof.
+  revert f; induction a as [|a IH]; intros f; simpl; auto.
+  rewrite IH. lia.
+Qed.
+
+Lemma popcount_pos_spec p : forall n, N.pos p < 2 ^ N.of_nat n ->
+  popcount_pos p = cntl (fun j => N.testbit (N.pos p) (N.of_nat j)) n.
+Proof.
+  induction p as [p IH|p IH|]; intros n Hn.
+  - destruct n as [|n]; [simpl in Hn; lia|].
+    assert (Hp : N.pos p < 2 ^ N.of_nat n) by (rewrite Nat2N.inj_succ, N.pow_succ_r' in Hn; lia).
+    cbn [popcount_pos cntl]. change (N.testbit (N.pos p~1) (N.of_nat 0)) with true.
+    rewrite (IH n Hp). f_equal. apply cntl_ext. intros j _.
+    rewrite Nat2N.inj_succ. change (N.pos p~1) with (2 * N.pos p + 1).
+    rewrite N.testbit_odd_succ by lia. reflexivity.
+  - destruct n as [|n]; [simpl in Hn; lia|].
+    assert (Hp : N.pos p < 2 ^ N.of_nat n) by (rewrite Nat2N.inj_succ, N.pow_succ_r' in Hn; lia).
+    cbn [popcount_pos cntl]. change (N.testbit (N.pos p~0) (N.of_nat 0)) with false.
+    rewrite (IH n Hp). rewrite N.add_0_l. apply cntl_ext. intros j _.
+    rewrite Nat2N.inj_succ. change (N.pos p~0) with (2 * N.pos p).
+    rewrite N.testbit_even_succ by lia. reflexivity.
+  - destruct n as [|n]; [simpl in Hn; lia|].
+    cbn [popcount_pos cntl]. change (N.testbit 1 (N.of_nat 0)) with true.
+    rewrite cntl_false; [reflexivity|]. intros j _. rewrite Nat2N.inj_succ.
+    change 1 with (2 ^ 0). apply N.pow2_bits_false. lia.
+Qed.
+
+Lemma popcount_spec w : w < 2 ^ 64 -> popcount w = cntl (fun j => N.testbit w (N.of_nat j)) 64.
+Proof.
+  intros Hw. destruct w as [|p].
+  - simpl popcount. symmetry. apply cntl_false. intros j _. apply N.bits_0.
+  - apply (popcount_pos_spec p 64). exact Hw.
+Qed.
+
+Lemma bit_count_fold ws : forall acc, fold_left (fun c w => c + popcount w) ws acc = acc + fold_left (fun c w => c + popcount w) ws 0.
+Proof.
+  induction ws as [|w ws IH]; intros acc; simpl; [lia|].
+  rewrite IH. rewrite (IH (popcount w)). lia.
+Qed.
+
+(* bitmap_bit_count = the number of n < 64 * len with bit n set (all members are below 64 * len) *)
+Theorem bit_count_spec bm : wfb bm ->
+  bit_count bm = cntl (fun j => wbit bm (N.of_nat j)) (64 * length bm).
+Proof.
+  unfold bit_count. induction bm as [|w bm IH]; intros Hwf; [reflexivity|].
+  inversion Hwf as [|? ? Hw Hwf']; subst.
+  cbn [fold_left]. rewrite bit_count_fold, N.add_0_l. rewrite (IH Hwf').
+  replace (64 * length (w :: bm))%nat with (64 + 64 * length bm)%nat by (simpl; lia).
+  rewrite cntl_add. f_equal.
+  - rewrite (popcount_spec w Hw). apply cntl_ext. intros j Hj. unfold wbit, wordix.
+    rewrite N.div_small by lia. rewrite N.mod_small by lia. reflexivity.
+  - apply cntl_ext. intros j Hj. unfold wbit, wordix.
+    replace (N.of_nat (64 + j)) with (N.of_nat j + 1 * 64) by lia.
+    rewrite N.div_add by lia. rewrite N.mod_add by lia.
+    replace (N.to_nat (N.of_nat j / 64 + 1)) with (S (N.to_nat (N.of_nat j / 64))) by lia. reflexivity.
+Qed.
